@@ -20,9 +20,9 @@ import (
 // does not explore Go's scheduler, rendezvous timing or data races.
 
 type chanItem struct {
-	seg int       // race.go: segment of the sender that ended at the send (-1: not recorded)
-	g   *smt.Term // guard under which the item was sent (true: complete)
-	v   Value
+	segs []int     // race.go: segments of the sender that ended at the send (one per arm for a send made on both arms)
+	g    *smt.Term // guard under which the item was sent (true: complete)
+	v    Value
 }
 
 type gor struct {
@@ -200,9 +200,10 @@ func (in *Interp) chanSend(ch Value, v Value) {
 		last := &c.items[n-1]
 		last.v = in.merge(g, v, last.v)
 		last.g = in.St.Or(last.g, g)
+		last.segs = append(last.segs, in.raceSend(c, true))
 		return
 	}
-	c.items = append(c.items, chanItem{g: g, v: v, seg: in.raceSend(c)})
+	c.items = append(c.items, chanItem{g: g, v: v, segs: []int{in.raceSend(c, false)}})
 }
 
 func (in *Interp) chanRecv(ch Value, commaOk bool, t types.Type) Value {
@@ -230,7 +231,7 @@ func (in *Interp) chanRecv(ch Value, commaOk bool, t types.Type) Value {
 	cur.waitOn = nil
 	it := c.items[0]
 	c.items = c.items[1:]
-	in.raceRecv(c, it.seg)
+	in.raceRecv(c, it.segs)
 	if commaOk {
 		return &TupleVal{E: []Value{it.v, in.St.T}}
 	}
